@@ -58,6 +58,93 @@ LexLessCase(a, b) ==
 FeatLessCase(a, b) == KindLess(a, b) \/ (a.kind = b.kind /\ RefLess(a.r, b.r))
 SameId(a, b) == a.kind = b.kind /\ a.r = b.r /\ VerOf(a) = VerOf(b)
 
+(* ----------------------------- big sort cases ---------------------------- *)
+(* Large id lists with structured byte patterns.  An identifier is written as *)
+(* 8 digits in significance order <<kind, r4, r3, r2, r1, r0, vh, vl>> (kind  *)
+(* digit = index into kinds = <<node, way, relation>>, reference and version  *)
+(* as big-endian bytes), so the (kind, ref, version) order is the             *)
+(* lexicographic order of digit vectors.  A case is                           *)
+(*     dom   : per position an increasing sequence of digits - the interior   *)
+(*             of the list is the full product of dom                         *)
+(*     first : a vector below every interior vector,  last : one above        *)
+(* expanded by the harness to 2 + |product| identifiers in the order `order`  *)
+(* (asc = expansion order, desc = reversed, shuffle = seeded shuffle).  The   *)
+(* sorted result is first, the product in lexicographic order, last - which   *)
+(* the Judge computes position by position (BigAt), no sorting needed.        *)
+(* Family A: a pivot position p (constant prefix above it; first / last have  *)
+(* pivot digits below / above all interior pivot digits), a set V of varying  *)
+(* positions below the pivot (one position: all 256 byte values; two: 16      *)
+(* values each), and a set E of positions below the pivot in which first and  *)
+(* last AGREE although the interior may vary there.  Family B: all three      *)
+(* kinds in the interior, first = a node, last = a relation, two varying      *)
+(* positions of which the lower is equal in first and last.                   *)
+Pos == 1 .. 8
+KindSeq  == [i \in 1 .. 3 |-> CHOOSE k \in ElementKinds : KindRank[k] = i]
+Byte256  == [i \in 1 .. 256 |-> i - 1]
+Byte16   == [i \in 1 .. 16 |-> (i - 1) * 17]            \* 0x00, 0x11, ... 0xFF
+Byte14   == [i \in 1 .. 14 |-> i * 17]                  \* 0x11 ... 0xEE (leaves room below and above)
+
+BigCase(dom, first, last, order, seed) ==
+  [t |-> "bigsort", kinds |-> KindSeq, dom |-> dom, first |-> first, last |-> last, order |-> order, seed |-> seed]
+
+OrderOf(k) == IF k % 5 = 0 THEN "asc" ELSE IF k % 5 = 1 THEN "desc" ELSE "shuffle"
+
+BigA(p, V, E, mids, hiRef) ==
+  LET S      == IF Cardinality(V) = 1 THEN Byte256 ELSE Byte16
+      pre(j) == IF j = 1 THEN 2 ELSE IF j = 2 THEN hiRef ELSE 0
+      hi     == IF p = 1 THEN 3 ELSE 254
+      T(j)   == IF j \in V THEN 17 ELSE 0
+      T2(j)  == IF j \in E THEN T(j) ELSE IF j \in V THEN 238 ELSE 1
+      dom    == [j \in Pos |-> IF j < p THEN <<pre(j)>> ELSE IF j = p THEN mids ELSE IF j \in V THEN S ELSE <<0>>]
+      first  == [j \in Pos |-> IF j < p THEN pre(j) ELSE IF j = p THEN 1 ELSE T(j)]
+      last   == [j \in Pos |-> IF j < p THEN pre(j) ELSE IF j = p THEN hi ELSE T2(j)]
+      k      == p + 3 * Cardinality(V) + 7 * Cardinality(E) + Len(mids) + hiRef
+  IN BigCase(dom, first, last, OrderOf(k), 1000 * p + 10 * Cardinality(E) + Len(mids))
+
+Subsets12(S) == {V \in SUBSET S : Cardinality(V) \in {1, 2}}
+Lower(p) == (p + 1) .. 8
+MinOf(S) == CHOOSE x \in S : \A y \in S : x <= y
+EChoices(p, V, full) ==
+  {V, {}} \cup (IF Cardinality(V) = 2 THEN {{MinOf(V)}} ELSE {}) \cup (IF full THEN {Lower(p)} ELSE {})
+MidsOf(p, wide) == IF p = 1 THEN <<2>> ELSE IF wide THEN <<2, 3, 128, 129>> ELSE <<2, 128>>
+
+BigACases(full) ==
+  UNION {UNION {{BigA(p, V, E, MidsOf(p, FALSE), 0) : E \in EChoices(p, V, full)}
+                  : V \in {W \in Subsets12(Lower(p)) : full \/ Cardinality(W) = 1 \/ p \in {1, 3, 6}}}
+           : p \in 1 .. 7}
+  \cup (IF full
+        THEN UNION {UNION {{BigA(p, V, E, MidsOf(p, TRUE), IF p > 2 THEN 128 ELSE 0) : E \in EChoices(p, V, full)}
+                              : V \in Subsets12(Lower(p))} : p \in 1 .. 7}
+        ELSE {})
+
+BigB(q, j, agree) ==      \* q < j: varying positions; first / last agree in position j iff agree
+  LET dom   == [x \in Pos |-> IF x = 1 THEN <<1, 2, 3>> ELSE IF x = q THEN Byte14 ELSE IF x = j THEN <<1, 2, 3, 38, 129, 200, 255>> ELSE <<0>>]
+      first == [x \in Pos |-> IF x = 1 THEN 1 ELSE IF x = q THEN 1 ELSE IF x = j THEN 3 ELSE 0]
+      last  == [x \in Pos |-> IF x = 1 THEN 3 ELSE IF x = q THEN 250 ELSE IF x = j THEN (IF agree THEN 3 ELSE 4) ELSE 0]
+  IN BigCase(dom, first, last, OrderOf(q + j), 100 * q + j)
+BigBCases(full) ==
+  {BigB(qj[1], qj[2], ag) :
+      qj \in {x \in (IF full THEN 2 .. 7 ELSE {3, 6}) \X (IF full THEN 3 .. 8 ELSE {7, 8}) : x[1] < x[2]}, ag \in BOOLEAN}
+
+BigSortCases(full) == BigACases(full) \cup BigBCases(full)
+
+\* well-formedness of a big sort case: digits in range, dom increasing, first below and last above the product
+LexLessV(a, b) == \E j \in Pos : a[j] < b[j] /\ \A x \in 1 .. j - 1 : a[x] = b[x]
+BigOK(c) ==
+  /\ \A j \in Pos : /\ Len(c.dom[j]) >= 1
+                    /\ \A i \in 1 .. Len(c.dom[j]) - 1 : c.dom[j][i] < c.dom[j][i + 1]
+                    /\ \A i \in 1 .. Len(c.dom[j]) : c.dom[j][i] \in (IF j = 1 THEN 1 .. 3 ELSE 0 .. 255)
+                    /\ c.first[j] \in (IF j = 1 THEN 1 .. 3 ELSE 0 .. 255) /\ c.last[j] \in (IF j = 1 THEN 1 .. 3 ELSE 0 .. 255)
+  /\ LexLessV(c.first, [j \in Pos |-> c.dom[j][1]])
+  /\ LexLessV([j \in Pos |-> c.dom[j][Len(c.dom[j])]], c.last)
+
+\* the sorted expansion, position by position
+BigProd(c)   == LET RECURSIVE P(_) P(j) == IF j > 8 THEN 1 ELSE Len(c.dom[j]) * P(j + 1) IN P(1)
+BigWeights(c) == LET RECURSIVE P(_) P(j) == IF j > 8 THEN 1 ELSE Len(c.dom[j]) * P(j + 1) IN [j \in Pos |-> P(j + 1)]
+BigDigit(c, W, n, i, j) ==
+  IF i = 1 THEN c.first[j] ELSE IF i = n THEN c.last[j]
+  ELSE c.dom[j][(((i - 2) \div W[j]) % Len(c.dom[j])) + 1]
+
 (* ------------------------------ text cases ------------------------------- *)
 CoreStrings(withSpace) ==
   {"node", "changeset", "zzz", "/", ":", "-", "+", "7", "0"} \cup (IF withSpace THEN {" "} ELSE {})
